@@ -1,4 +1,5 @@
 import Aplang.Proofs.ImportLemmas
+import Aplang.Thm.C19
 import Aplang.Model.Config
 import Aplang.Model.Run
 /-!
@@ -11,6 +12,11 @@ statements of a user module; `stmt_import` transfers them to `stmt cfg (f+1) (.i
 
 A module name is the string literal of the token `modName`; an import list is a list of string tokens
 (`tokName`); "callable" is `σ.procs.find? n ≠ none`.
+
+The file of a user module is named by the text `joinPath (dirOf σ.filePath) name` (src: `PathBuf::pop` and
+`PathBuf::join` are textual); `Fs.fileRead` resolves that text as the kernel does, `..` included
+(`Fs.resolve`). The module runs with that text as its own file path, so its own imports are joined to the
+directory part of the text as written (section "module names with `..`").
 -/
 namespace Aplang
 
@@ -286,6 +292,44 @@ theorem unloadable_module_runs_nothing (only : Option (List Token)) (modName : T
       · exact h
     rw [missing_module_file_reported cfg run₁ only modName σ name hlit hreg hx hr,
       missing_module_file_reported cfg run₂ only modName σ name hlit hreg hx hr]
+
+
+/-! ## module names with `..` -/
+
+/-- the module runs with the joined path *as written* as its file path (src: `ApLang::new_from_file(maybe_path)`),
+so a module it imports is looked up at the text `dirOf (that path) / name2` — `..` components stay in the
+text and are resolved by the file system at each read -/
+theorem module_file_path_is_textual (σ : St) (name name2 : Str) :
+    (moduleState cfg σ (modulePath σ name)).filePath = modulePath σ name ∧
+    modulePath (moduleState cfg σ (modulePath σ name)) name2 =
+      joinPath (dirOf (joinPath (dirOf σ.filePath) name)) name2 := ⟨rfl, rfl⟩
+
+/-- a name joined to no directory is the name -/
+theorem modulePath_of_root (σ : St) (name : Str) (hfp : dirOf σ.filePath = []) : modulePath σ name = name := by
+  unfold modulePath joinPath
+  rw [hfp]
+  split
+  · rfl
+  · rfl
+
+/-- `IMPORT MOD "d/../x"` from a file in the sandbox root, `d` an existing directory directly below it,
+reads what `IMPORT MOD "x"` reads -/
+theorem import_through_dotdot_reads_same (σ : St) (d x : Str) (p : Fs.Path) (hfp : dirOf σ.filePath = [])
+    (hr : Fs.resolve σ.world.fs d = some p) (hd : Fs.isDir σ.world.fs p = true) (hpar : Fs.parent p = [])
+    (hx : Fs.components x ≠ []) :
+    Fs.fileRead σ.world.fs (modulePath σ (Fs.upFrom d x)) = Fs.fileRead σ.world.fs (modulePath σ x) := by
+  rw [modulePath_of_root σ _ hfp, modulePath_of_root σ _ hfp]
+  exact (Fs.dotdot_roundtrip σ.world.fs d x p hr hd hpar hx []).2.2.2.2.2.1
+
+/-- `..` through something that is not an existing directory: the module file is reported missing, nothing
+is run, the importer's state is unchanged -/
+theorem import_through_missing_directory_reported (only : Option (List Token)) (modName : Token) (σ : St)
+    (name : Str) (hlit : modName.lit = .str name) (hreg : cfg.modules name = none)
+    (hext : hasApExtension (modulePath σ name) = true)
+    (hres : Fs.resolve σ.world.fs (modulePath σ name) = none) :
+    importStmt cfg runModule only modName σ = .err ⟨"module file does not exist", modName.span⟩ σ :=
+  missing_module_file_reported cfg runModule only modName σ name hlit hreg hext
+    (Fs.unresolved_fails σ.world.fs _ hres []).2.2.2.2.2.1
 
 /-! ## user modules -/
 
@@ -717,6 +761,52 @@ own module": inside `m.ap` the call `f()` returns "x"; from the importer the sam
 example : endsWithVar (Aplang.run cfg0 50 (modSrc ++ "r <- f()\n".toList) world0 "m.ap".toList) ['x'] = true ∧
     endsWithErr (Aplang.run cfg0 50 "IMPORT MOD \"m.ap\"\nr <- f()\n".toList world0 "main.ap".toList)
       "Invalid PROCEDURE" = true := by decide +kernel
+
+
+/-! ### module names with `..`: `sub/` is a directory, `sub/n.ap` imports `../m.ap` -/
+
+def nSrc : Str := "IMPORT MOD \"../m.ap\"\nEXPORT PROCEDURE h() { RETURN g() }\n".toList
+
+def world1 : World :=
+  { fs := [(["m.ap".toList], .file modSrc), (["sub".toList], .dir), (["sub".toList, "n.ap".toList], .file nSrc)] }
+
+/-- `sub/../m.ap` is `m.ap`; the name as written has the `.ap` extension -/
+example : hasApExtension (modulePath (initState cfg0 world1 "main.ap".toList) "sub/../m.ap".toList) = true ∧
+    Fs.fileRead world1.fs (modulePath (initState cfg0 world1 "main.ap".toList) "sub/../m.ap".toList) = some modSrc := by
+  decide +kernel
+
+example : endsWithVar (Aplang.run cfg0 50 "IMPORT MOD \"sub/../m.ap\"\nr <- g()\n".toList world1 "main.ap".toList)
+    ['y'] = true := by decide +kernel
+
+/-- through a missing directory, and through a file: the module file does not exist -/
+example : endsWithErr (Aplang.run cfg0 50 "IMPORT MOD \"nosub/../m.ap\"\nr <- g()\n".toList world1 "main.ap".toList)
+      "module file does not exist" = true ∧
+    endsWithErr (Aplang.run cfg0 50 "IMPORT MOD \"m.ap/../m.ap\"\nr <- g()\n".toList world1 "main.ap".toList)
+      "module file does not exist" = true := by decide +kernel
+
+/-- a module in `sub/` imports `../m.ap`: the text joined is `sub/../m.ap`. The procedures a module imports
+are not re-exported, so `h` (which calls `g`) fails in the importer exactly as `f` does above — but the
+import inside `sub/n.ap` itself went through: the run gets as far as the call -/
+example : endsWithErr (Aplang.run cfg0 80 "IMPORT MOD \"sub/n.ap\"\nr <- h()\n".toList world1 "main.ap".toList)
+      "Invalid PROCEDURE" = true ∧
+    endsWithVar (Aplang.run cfg0 80 "IMPORT MOD \"sub/n.ap\"\nr <- \"ok\"\n".toList world1 "main.ap".toList)
+      ['o', 'k'] = true := by decide +kernel
+
+/-- the text stays as written: imported as `sub/../sub/n.ap`, the module `n.ap` looks `../m.ap` up at
+`sub/../sub/../m.ap` -/
+example : modulePath (moduleState cfg0 (initState cfg0 world1 "main.ap".toList)
+      (modulePath (initState cfg0 world1 "main.ap".toList) "sub/../sub/n.ap".toList)) "../m.ap".toList =
+      "sub/../sub/../m.ap".toList ∧
+    Fs.fileRead world1.fs "sub/../sub/../m.ap".toList = some modSrc ∧
+    endsWithVar (Aplang.run cfg0 80 "IMPORT MOD \"sub/../sub/n.ap\"\nr <- \"ok\"\n".toList world1 "main.ap".toList)
+      ['o', 'k'] = true := by decide +kernel
+
+/-- with `sub/` missing the same import inside `n.ap` would fail — here `n.ap` sits in the root and imports
+`nosub/../m.ap` -/
+example : endsWithErr (Aplang.run cfg0 80 "IMPORT MOD \"n2.ap\"\nr <- \"ok\"\n".toList
+      { fs := [(["m.ap".toList], .file modSrc),
+               (["n2.ap".toList], .file "IMPORT MOD \"nosub/../m.ap\"\n".toList)] } "main.ap".toList)
+      "module file does not exist" = true := by decide +kernel
 
 /-! ### the hypotheses of `exported_behaves_as_in_module_partial` are satisfiable -/
 
